@@ -55,6 +55,7 @@ class _Folder:
         self.attr = attr                      # name -> ast expression of a class-level binding, or None
         self.itn = itertools_name or (lambda f: f.attr if isinstance(f, ast.Attribute) and isinstance(f.value, ast.Name) and f.value.id == "itertools" else None)
         self.depth = 0
+        self.class_scope = False
 
     def ev(self, n):
         self.depth += 1
@@ -71,13 +72,24 @@ class _Folder:
     def e_Name(self, n):
         if n.id in self.env:
             return self.env[n.id]
+        if self.class_scope and self.attr is not None:
+            # inside a class body a bare name is an earlier binding of that body
+            e = self.attr(n.id)
+            if e is not None:
+                return self._class_value(e)
         raise NotConstant(n.id)
+
+    def _class_value(self, e):
+        f = _Folder({}, self.attr, self.itn)
+        f.class_scope = True
+        f.depth = self.depth
+        return f.ev(e)
 
     def e_Attribute(self, n):
         if isinstance(n.value, ast.Name) and n.value.id in ("self", "cls") and self.attr is not None:
             e = self.attr(n.attr)
             if e is not None:
-                return _Folder({}, self.attr, self.itn).ev(e)
+                return self._class_value(e)
         raise NotConstant(ast.unparse(n))
 
     def e_JoinedStr(self, n):
